@@ -1,4 +1,5 @@
 import Prom.Drv.Hist
+import Prom.Drv.Desc
 /- Line-protocol driver: one request per line on stdin, one result per line on stdout. -/
 open Prom Prom.Drv
 
@@ -9,6 +10,7 @@ def step (st : DState) (line : String) : DState × String :=
   match line.trimAscii.toString.splitOn " " with
   | ["case"] => ({}, "case")
   | "hist" :: args => (st, histHandle args)
+  | "desc" :: args => (st, descHandle args)
   | _ => (st, "bad-op")
 
 partial def loop (h : IO.FS.Stream) (out : IO.FS.Stream) (st : DState) : IO Unit := do
